@@ -46,7 +46,10 @@ func c09prop(ev *evid.Rec) func(rt *rapid.T) {
 		seg := rapid.SampledFrom([]string{"", "", "random", "header", "bytes"}).Draw(rt, "segmentation")
 		segSeed := rapid.Uint64().Draw(rt, "segseed")
 		wireName := macRoman(name)
-		comment := []byte("up")
+		comment := []byte(rapid.SampledFrom([]string{"up", "up", ""}).Draw(rt, "comment"))
+		// some clients end the information fork right after the name when there is no comment
+		hlref.ShortInfoFork = rapid.Bool().Draw(rt, "shortInfoFork")
+		defer func() { hlref.ShortInfoFork = false }()
 		hdrLen := hlsim.UploadHeaderLen(wireName, comment)
 		var cutLog []string
 		ntCase := false
